@@ -146,6 +146,8 @@ def write_column(w, field, raws, extra_width=0):
     if eq:
         w.uint(0, 6)
         return
+    if width > 63:
+        raise IllFormed('column needs a %d-bit difference: not representable in compressed form' % width)
     width = min(63, width + extra_width)
     w.uint(width, 6)
     for x in raws:
